@@ -560,6 +560,34 @@ func (pe *PEval) expr(env *penv, e ast.Expr, depth int) Val {
 			}
 		}
 		return unknownVal{"unary " + exprStr(x)}
+	case *ast.SliceExpr:
+		// constant string sliced with constant bounds: s[lo:hi]
+		base := pe.expr(env, x.X, depth)
+		if bc, ok := base.(constant.Value); ok && bc.Kind() == constant.String && x.Max == nil {
+			str := constant.StringVal(bc)
+			lo, hi := 0, len(str)
+			okB := true
+			if x.Low != nil {
+				if lv, ok := pe.expr(env, x.Low, depth).(constant.Value); ok && lv.Kind() == constant.Int {
+					n, _ := constant.Int64Val(lv)
+					lo = int(n)
+				} else {
+					okB = false
+				}
+			}
+			if x.High != nil {
+				if hv, ok := pe.expr(env, x.High, depth).(constant.Value); ok && hv.Kind() == constant.Int {
+					n, _ := constant.Int64Val(hv)
+					hi = int(n)
+				} else {
+					okB = false
+				}
+			}
+			if okB && 0 <= lo && lo <= hi && hi <= len(str) {
+				return constant.MakeString(str[lo:hi])
+			}
+		}
+		return unknownVal{"slice " + exprStr(x)}
 	case *ast.BinaryExpr:
 		switch x.Op {
 		case token.LAND, token.LOR:
